@@ -110,6 +110,16 @@ struct Emitter {
             if (!P->isIncompleteType() && !P->isFunctionType())
                 j += ",\"psz\":" + std::to_string(Ctx.getTypeSizeInChars(P).getQuantity());
             if (P->isFunctionType()) j += ",\"fnptr\":true";
+            else {
+                // reserve our slot first so that the recursive call cannot reuse the index
+                int id0 = (int)typeTab.size();
+                typeTab.push_back("");
+                typeIdx[key] = id0;
+                int pt = typeId(P.getUnqualifiedType());
+                j += ",\"pt\":" + std::to_string(pt) + "}";
+                typeTab[id0] = j;
+                return id0;
+            }
         } else if (const RecordType *RT = C->getAs<RecordType>()) {
             j += ",\"rec\":" + jstr(recName(RT->getDecl()));
             if (RT->getDecl()->isCompleteDefinition())
